@@ -173,7 +173,7 @@ def simpleOf (obj : TypeDef) (vars : List (Name × Bool)) (rec : GType → List 
     let key := match alias with | some (a, _) => a | none => name
     let skipped ← checkSkip vars dirs
     let f ← fieldTree obj key name skipped sub rec
-    .ok (some (alias.isSome, f))
+    .ok (some (isAliased alias name, f))
   | _ => .ok none
 
 /-- the `flat_map` closure (fragment contents) -/
@@ -284,7 +284,7 @@ theorem simpleOf_field (obj : TypeDef) (vars : List (Name × Bool)) (rec : GType
     simpleOf obj vars rec (.field alias name np args dirs sub) = (do
       let skipped ← checkSkip vars dirs
       let f ← fieldTree obj (keyOf alias name) name skipped sub rec
-      .ok (some (alias.isSome, f))) := by
+      .ok (some (isAliased alias name, f))) := by
   cases alias with
   | none => rfl
   | some a => cases a; rfl
@@ -312,10 +312,10 @@ theorem simple_spec (HI : ImplStmt c mfuel fuel) {o : Name} {obj : TypeDef} (hob
       | error e => simp [hft] at h
       | ok f =>
         simp only [hft] at h; cases h
-        let t : FT := ⟨keyOf alias name, alias.isSome, name, sub⟩
+        let t : FT := ⟨keyOf alias name, isAliased alias name, name, sub⟩
         have hin : ∀ inc : Inc, inc dirs = true →
             InFlat c.S c.F o inc [] [.field alias name np args dirs sub] t := fun inc hi => .field hi
-        refine ⟨[((t, sk), (alias.isSome, f))], rfl, ?_, ?_⟩
+        refine ⟨[((t, sk), (isAliased alias name, f))], rfl, ?_, ?_⟩
         · intro p hp
           simp only [List.mem_singleton] at hp; subst hp
           refine ⟨⟨rfl, ?_⟩, hin allInc rfl, ?_⟩
@@ -335,7 +335,7 @@ theorem simple_spec (HI : ImplStmt c mfuel fuel) {o : Name} {obj : TypeDef} (hob
             have := checkSkip_agree hsk hag
             exact hin _ (by simpa using this)
         · intro _ σ hag t' ht'
-          refine ⟨((t, sk), (alias.isSome, f)), by simp, ?_⟩
+          refine ⟨((t, sk), (isAliased alias name, f)), by simp, ?_⟩
           cases ht' with
           | field hi =>
             have := checkSkip_agree hsk hag
@@ -664,7 +664,7 @@ theorem accInv_step {c : Ctx} {mt : SelTree → SelTree → Except Panic SelTree
       have := hok.2; simp only [hs, Bool.false_eq_true, ↓reduceIte, hf] at this; exact this
     obtain ⟨htn, _, fd', s, hfd', hsub, hrel⟩ := fieldOf_object hfo
     obtain ⟨_, hqk, hqin⟩ := hall q (mono q hq)
-    have hsame := (hcoh.1 q.1.1 p.1.1 (pu_sb1.2 hqin) (pu_sb1.2 hin) (by rw [hqk, hkey])).2.1
+    have hsame := (cohAt_full hcoh q.1.1 p.1.1 (pu_sb1.2 hqin) (pu_sb1.2 hin) (by rw [hqk, hkey])).2.1
     rw [← hsame, h3] at hfd'; cases hfd'
     have hunion : ∀ s', SUnion (subsOf ps) (Sb1 s) s' ↔ subsOf (ps ++ [p]) s' := by
       intro s'
@@ -722,7 +722,7 @@ theorem accInv_relField {c : Ctx} {o k : Name} {ss : List Selection} {vars : Lis
   obtain ⟨⟨hok0, hall0, _⟩, hk0, htag0⟩ := hps q0 hq0
   have hclass : ∀ t, InFlat c.S c.F o allInc [] ss t → t.key = k → t.aliased = tag := by
     intro t ht hk
-    have := (hcoh.1 t q0.1.1 (pu_sb1.2 ht) (pu_sb1.2 hall0) (by rw [hk, hk0])).1
+    have := (cohAt_full hcoh t q0.1.1 (pu_sb1.2 ht) (pu_sb1.2 hall0) (by rw [hk, hk0])).1
     rw [this, ← hok0.1, htag0]
   have hcomp' : ∀ t, InFlat c.S c.F o (included σ) [] ss t → t.key = k → ∃ q ∈ ps, q.1 = (t, false) :=
     fun t ht hk => hcomp t ht hk (hclass t (inFlat_inc_mono (fun _ _ => rfl) ht) hk)
